@@ -4,6 +4,7 @@ go 1.24.2
 
 require (
 	example.com/scion-time v0.0.0
+	github.com/prometheus/client_golang v1.21.1
 	golang.org/x/sys v0.31.0
 )
 
@@ -22,7 +23,6 @@ require (
 	github.com/munnerz/goautoneg v0.0.0-20191010083416-a7dc8b61c822 // indirect
 	github.com/opentracing/opentracing-go v1.2.0 // indirect
 	github.com/pelletier/go-toml/v2 v2.2.3 // indirect
-	github.com/prometheus/client_golang v1.21.1 // indirect
 	github.com/prometheus/client_model v0.6.1 // indirect
 	github.com/prometheus/common v0.63.0 // indirect
 	github.com/prometheus/procfs v0.16.0 // indirect
